@@ -41,6 +41,7 @@ import (
 	"github.com/synnaxlabs/x/errors"
 	"github.com/synnaxlabs/x/gorp"
 	"github.com/synnaxlabs/x/graph"
+	"github.com/synnaxlabs/x/kv"
 	"github.com/synnaxlabs/x/kv/memkv"
 	"github.com/synnaxlabs/x/observe"
 	"github.com/synnaxlabs/x/query"
@@ -93,6 +94,7 @@ type vMismatch struct {
 	R      string   `json:"r"` // mismatch | crash | inconclusive
 	Conc   string   `json:"conc"`
 	Inj    []int    `json:"inj"`
+	Wiring string   `json:"wiring"` // default | prod (index observer wiring of the gorp DB)
 	Step   int      `json:"step"`
 	A      string   `json:"a"`
 	Kind   string   `json:"kind"` // class | resources | edges | traversal | traversal-missing | panic | crash | error
@@ -120,6 +122,8 @@ type vStats struct {
 	Aborts       int `json:"aborts"`
 	TxSteps      int `json:"tx_steps"`
 	Reopens      int `json:"reopens"`
+	ProdRuns     int `json:"prod_runs"`      // runs with the production index-observer wiring
+	TxRewriteDel int `json:"tx_rewrite_del"` // committed edge rewritten, then deleted, inside one tx
 	Traversals   int `json:"traversals"`
 	DeepLevels   int `json:"deep_levels"` // non-empty traversal levels with >= 2 hops
 	MissingQ     int `json:"missing_queries"`
@@ -142,6 +146,8 @@ func (s *vStats) add(o vStats) {
 	s.Aborts += o.Aborts
 	s.TxSteps += o.TxSteps
 	s.Reopens += o.Reopens
+	s.ProdRuns += o.ProdRuns
+	s.TxRewriteDel += o.TxRewriteDel
 	s.Traversals += o.Traversals
 	s.DeepLevels += o.DeepLevels
 	s.MissingQ += o.MissingQ
@@ -211,6 +217,19 @@ type vRunner struct {
 	wtx   ontology.Writer
 	stats *vStats
 	flip  int
+	prod  bool
+}
+
+// vNewDB opens the store. prod = the wiring of core/pkg/distribution/layer.go: the index
+// observer is fed by an observable that never reports writes of the local node
+// (aspen.IgnoreHostLeaseholder), so the secondary indexes of local writes are maintained
+// by the per-transaction delta flush alone. default = gorp.Wrap(kv): the indexes also
+// observe the store itself.
+func vNewDB(prod bool) *gorp.DB {
+	if prod {
+		return gorp.Wrap(memkv.New(), gorp.WithIndexObservable(observe.Noop[kv.TxReader]{}))
+	}
+	return gorp.Wrap(memkv.New())
 }
 
 func (r *vRunner) open() error {
@@ -291,6 +310,16 @@ func (r *vRunner) apply(st vStep) (string, error) {
 	}
 	ctx := r.ctx
 	switch st.A {
+	case "init":
+		// committed start graph of a transaction burst: built with direct defines
+		es := append([]vEdge(nil), st.Edges...)
+		sort.Slice(es, func(a, b int) bool { return r.relKey(es[a]) < r.relKey(es[b]) })
+		for _, e := range es {
+			if err := r.wdb.DefineRelationship(ctx, r.ids[e.F], r.rt(e.Ty), r.ids[e.T]); err != nil {
+				return vErrClass(err), nil
+			}
+		}
+		return "ok", nil
 	case "begin":
 		r.tx = r.db.OpenTx()
 		r.wtx = r.otg.NewWriter(r.tx)
@@ -533,6 +562,12 @@ func vStepKey(r *vRunner, st vStep) string {
 		b.WriteByte(',')
 		b.WriteString(r.ids[x].String())
 	}
+	if st.A == "init" {
+		for _, e := range st.Edges {
+			b.WriteByte(',')
+			b.WriteString(r.relKey(e))
+		}
+	}
 	b.WriteByte(';')
 	return b.String()
 }
@@ -543,6 +578,9 @@ func vStepKey(r *vRunner, st vStep) string {
 // content that already failed or crashed is not executed again.
 func vStateOpKey(r *vRunner, pre *vStep, initRes int, st vStep) uint64 {
 	h := fnv.New64a()
+	if r.prod {
+		_, _ = h.Write([]byte("prod@"))
+	}
 	_, _ = h.Write([]byte(r.conc.name + "@"))
 	part := func(res []int, edges []vEdge) {
 		rs := make([]string, 0, len(res))
@@ -578,9 +616,13 @@ func vStateOpKey(r *vRunner, pre *vStep, initRes int, st vStep) uint64 {
 // vRun replays one history under one concretisation/injection. progress(step, keyhash)
 // is called before each step; bad holds hashes of concrete prefixes already known to
 // fail (the run is then skipped and counted as a duplicate).
-func vRun(hist []vStep, conc vConc, inj []int, n, initRes int, stats *vStats,
+func vRun(hist []vStep, conc vConc, inj []int, prod bool, n, initRes int, stats *vStats,
 	bad map[uint64]bool, progress func(step int, key uint64)) (mm *vMismatch, dup bool) {
-	r := &vRunner{ctx: context.Background(), conc: conc, n: n, stats: stats}
+	r := &vRunner{ctx: context.Background(), conc: conc, n: n, stats: stats, prod: prod}
+	wiring := "default"
+	if prod {
+		wiring = "prod"
+	}
 	r.ids = make([]ontology.ID, n+1)
 	idStrs := make([]string, n+1)
 	for a := 1; a <= n; a++ {
@@ -590,7 +632,7 @@ func vRun(hist []vStep, conc vConc, inj []int, n, initRes int, stats *vStats,
 	// prefix keys
 	keys := make([]uint64, len(hist))
 	h := fnv.New64a()
-	_, _ = h.Write([]byte(conc.name + "#" + strconv.Itoa(initRes) + "#"))
+	_, _ = h.Write([]byte(conc.name + "#" + wiring + "#" + strconv.Itoa(initRes) + "#"))
 	for a := 1; a <= n; a++ { // resources that merely exist matter too
 		_, _ = h.Write([]byte(idStrs[a] + ","))
 	}
@@ -612,7 +654,7 @@ func vRun(hist []vStep, conc vConc, inj []int, n, initRes int, stats *vStats,
 			bad[keys[step]] = true
 			bad[sk] = true
 		}
-		return &vMismatch{R: "mismatch", Conc: conc.name, Inj: inj, Step: step, A: a, Kind: kind, View: view,
+		return &vMismatch{R: "mismatch", Conc: conc.name, Inj: inj, Wiring: wiring, Step: step, A: a, Kind: kind, View: view,
 			Exp: exp, Act: act, Detail: detail, IDs: idStrs, key: sk}
 	}
 	defer func() {
@@ -621,7 +663,7 @@ func vRun(hist []vStep, conc vConc, inj []int, n, initRes int, stats *vStats,
 		}
 		r.close()
 	}()
-	r.db = gorp.Wrap(memkv.New())
+	r.db = vNewDB(prod)
 	if err := r.open(); err != nil {
 		m := fail("error", "", "open", err.Error(), "")
 		m.R = "inconclusive"
@@ -635,6 +677,11 @@ func vRun(hist []vStep, conc vConc, inj []int, n, initRes int, stats *vStats,
 		}
 	}
 	stats.Runs++
+	if prod {
+		stats.ProdRuns++
+	}
+	// edges (abstract) written by the open transaction that also exist committed
+	rewritten := map[vEdge]bool{}
 	var pre vStep
 	for i, st := range hist {
 		step = i
@@ -670,6 +717,40 @@ func vRun(hist []vStep, conc vConc, inj []int, n, initRes int, stats *vStats,
 			if !alt {
 				return fail("class", st.W, st.Cls, cls, ""), false
 			}
+		}
+		if st.W != "db" && i > 0 {
+			committed := map[vEdge]bool{}
+			for _, e := range pre.Edges {
+				committed[e] = true
+			}
+			inView := map[vEdge]bool{}
+			for _, e := range st.VEdges {
+				inView[e] = true
+			}
+			switch st.A {
+			case "defmany":
+				if cls == "ok" { // one create for all targets: existing edges are written again
+					for _, y := range st.S {
+						if e := (vEdge{st.X, st.Ty, y}); committed[e] {
+							rewritten[e] = true
+						}
+					}
+				}
+			case "defrel":
+				if e := (vEdge{st.X, st.Ty, st.Y}); cls == "ok" && committed[e] && len(st.VEdges) > len(pre.VEdges) {
+					rewritten[e] = true
+				}
+			case "delrel", "delres", "delresmany", "delout", "delin":
+				for e := range rewritten {
+					if !inView[e] {
+						stats.TxRewriteDel++
+						delete(rewritten, e)
+					}
+				}
+			}
+		}
+		if st.A == "commit" || st.A == "abort" {
+			rewritten = map[vEdge]bool{}
 		}
 		switch st.A {
 		case "defrel", "defmany":
@@ -762,13 +843,15 @@ func vReadParams() vParams {
 }
 
 type vJob struct {
-	c   int
-	inj []int
+	c    int
+	inj  []int
+	prod bool
 }
 
 func (p vParams) jobs(i int) []vJob {
 	if p.force != "" {
-		parts := strings.SplitN(p.force, "=", 2)
+		prod := strings.HasSuffix(p.force, "@prod")
+		parts := strings.SplitN(strings.TrimSuffix(strings.TrimSuffix(p.force, "@prod"), "@default"), "=", 2)
 		var inj []int
 		for _, s := range strings.Split(parts[1], ",") {
 			v, _ := strconv.Atoi(s)
@@ -776,7 +859,7 @@ func (p vParams) jobs(i int) []vJob {
 		}
 		for ci, c := range vConcs {
 			if c.name == parts[0] {
-				return []vJob{{ci, inj}}
+				return []vJob{{ci, inj, prod}}
 			}
 		}
 		return nil
@@ -791,7 +874,8 @@ func (p vParams) jobs(i int) []vJob {
 				continue
 			}
 			seen[k] = true
-			out = append(out, vJob{c, inj})
+			// every other run uses the production index-observer wiring
+			out = append(out, vJob{c, inj, (i+len(out))%2 == 0})
 		}
 	}
 	return out
@@ -899,7 +983,7 @@ func vChild(t *testing.T) {
 				continue
 			}
 			jj := j
-			mm, dup := vRun(hist, vConcs[job.c], job.inj, p.n, p.initRes, &stats, bad, func(step int, key uint64) {
+			mm, dup := vRun(hist, vConcs[job.c], job.inj, job.prod, p.n, p.initRes, &stats, bad, func(step int, key uint64) {
 				buf = buf[:0]
 				buf = fmt.Appendf(buf, "%d %d %d %d", i, jj, step, key)
 				for len(buf) < 95 {
@@ -1079,6 +1163,10 @@ func TestVerifOntologyReplay(t *testing.T) {
 				if jobs := p.jobs(i); job < len(jobs) {
 					cm.Conc = vConcs[jobs[job].c].name
 					cm.Inj = jobs[job].inj
+					cm.Wiring = "default"
+					if jobs[job].prod {
+						cm.Wiring = "prod"
+					}
 					ids := make([]string, p.n+1)
 					for a := 1; a <= p.n; a++ {
 						ids[a] = vConcs[jobs[job].c].ids[jobs[job].inj[a-1]].String()
